@@ -1,6 +1,5 @@
 \* the code as it is, validator 2 is NOT a proposer (proposer(1,0) = 3); rounds 0, one height,
-\* one valid peer value, votes from peers 1 and 3; every crash point, up to 2 crashes (thorough: 5 inputs; measured 1,732,673 distinct states)
-\* Measured: 1,734,434 distinct states, depth 51.
+\* one valid peer value, votes from peers 1 and 3; every crash point, one crash or graceful stop (5 inputs); the 4-input configuration with 2 restarts runs in both tiers
 CONSTANTS
   NV = 4
   PowerOf <- DrvPowerOf
@@ -16,7 +15,7 @@ CONSTANTS
   MaxHeight = 1
   PropShift = 1
   MaxInputs = 5
-  MaxCrashes = 2
+  MaxCrashes = 1
   VotePeers = {1, 3}
   FutureH = 0
 INIT Init
